@@ -83,7 +83,11 @@ func verifApkPayload(o scen.Options) {
 			v.Assert(e.Uname == w.Owner && e.Gname == w.Group, "apk-file-owner-group")
 		case 'd', 'i':
 			v.Assert(e.Name == name+"/" && e.Type == '5', "apk-dir-name-type")
-			v.Assert(e.Mode == scen.UnixMode(w.Mode), "apk-dir-mode")
+			if w.FromTree {
+				v.Assert(e.Mode == scen.UnixMode(w.Mode), "apk-dir-mode-of-tree-directory")
+			} else {
+				v.Assert(e.Mode == scen.UnixMode(w.Mode), "apk-dir-mode")
+			}
 			v.Assert(e.Uname == w.Owner && e.Gname == w.Group, "apk-dir-owner-group")
 		case 'l':
 			v.Assert(e.Name == name && e.Type == '2', "apk-symlink-name-type")
@@ -91,3 +95,6 @@ func verifApkPayload(o scen.Options) {
 		}
 	}
 }
+
+// Verif_C01_C_ApkSources_Thorough: a tree, a directory source expanded by the glob model, an on-disk symlink.
+func Verif_C01_C_ApkSources_Thorough() { verifApkPayload(scen.Options{Second: -4}) }
